@@ -272,6 +272,8 @@ def seq_circuits():
                                     {"r0": ("d0", "q0"), "r1": ("d1", "q1")}, FF, "d", "q", {"clk": "clk"}), "d", "q"))
     S.append((("seq", "qnames"), mk("qnames", I("clk", "req_q", "en_d") + [("q", "buf", []), ("d", "xor", ["req_q", "q", "en_d"]), ("ack_q", "and", ["q", "req_q"], True), ("st_d", "not", ["q"], True)],
                                     {"r0": ("d", "q")}, FF, "d", "q", {"clk": "clk"}), "d", "q"))
+    S.append((("seq", "io_input"), mk("io_input", [("clk", "input", []), ("en", "input", [], True), ("a", "input", [])] + [("q", "buf", []), ("d", "and", ["en", "a", "q"]), ("o", "or", ["q", "en"], True)],
+                                      {"r0": ("d", "q")}, FF, "d", "q", {"clk": "clk"}), "d", "q"))
     CKDQ = ["dff", ["CK", "D"], ["Q"]]
     S.append((("seq", "cnt3"), mk("cnt3", I("CK", "inc") + [("s0", "buf", []), ("s1", "buf", []), ("s2", "buf", []),
                                                              ("n0", "xor", ["s0", "inc"]), ("c0", "and", ["s0", "inc"]), ("n1", "xor", ["s1", "c0"]), ("c1", "and", ["s1", "c0"]),
